@@ -38,7 +38,12 @@ for i in range(1, 21):
         extra = os.path.join(VERIF, "design/4_%s.md" % p)
         if os.path.exists(extra):
             out.append(open(extra).read())
-out.append(open(os.path.join(VERIF, "design/50_tail.md")).read())
+tail = open(os.path.join(VERIF, "design/50_tail.md")).read()
+res_md = os.path.join(VERIF, "seeded", "RESULTS.md")
+table = ""
+if os.path.exists(res_md):
+    table = "\n".join(l for l in open(res_md).read().split("\n") if l.startswith("|"))
+out.append(tail.replace("{{SEEDED_RESULTS}}", table))
 out.append(open(os.path.join(VERIF, "design/90_appendixA.md")).read())
 open(os.path.join(VERIF, "DESIGN.md"), "w").write("\n".join(out))
 print("DESIGN.md written")
